@@ -371,6 +371,7 @@ func checkSessions(c *core.Ctx, sessions [][]int) {
 // ---------------------------------------------------------------- level 3: file level
 
 const skippedPath = "only.io/skipped/ref"
+const chainedPath = "only.io/chained/ref"
 
 func checkFile(c *core.Ctx, seqs [][]int) {
 	dir := pipe.TempDir("c03")
@@ -384,7 +385,8 @@ func checkFile(c *core.Ctx, seqs [][]int) {
 		for _, pi := range seq {
 			imps = append(imps, cpaths[pi])
 		}
-		byType["x.io/test/p/"+name+".T"] = pipe.Action{Imports: imps}
+		// one more package is referred to only at the root of longer selector chains
+		byType["x.io/test/p/"+name+".T"] = pipe.Action{Imports: imps, ChainImports: []string{chainedPath}}
 		// a second type refers to one more package and then returns ErrSkip: whether its text is kept is
 		// not C03's business, but the import block must agree with whatever ends up in the file
 		byType["x.io/test/p/"+name+".U"] = pipe.Action{Imports: []string{skippedPath}, Ret: "skip"}
@@ -434,6 +436,7 @@ func checkFile(c *core.Ctx, seqs [][]int) {
 		}
 		used := map[string]bool{}
 		keptSkipped := false
+		chainedSeen := false
 		ast.Inspect(f, func(n ast.Node) bool {
 			vs, ok := n.(*ast.ValueSpec)
 			if !ok || len(vs.Names) != 1 {
@@ -464,6 +467,33 @@ func checkFile(c *core.Ctx, seqs [][]int) {
 			}
 			return true
 		})
+		// roots of selector chains (pkg.V.Field.Sub, pkg.F().Method().Name)
+		ast.Inspect(f, func(n ast.Node) bool {
+			sel, ok := n.(*ast.SelectorExpr)
+			if !ok {
+				return true
+			}
+			var x ast.Expr = sel
+			for {
+				switch y := x.(type) {
+				case *ast.SelectorExpr:
+					x = y.X
+					continue
+				case *ast.CallExpr:
+					x = y.Fun
+					continue
+				}
+				break
+			}
+			if id, ok := x.(*ast.Ident); ok && specs[id.Name] == chainedPath {
+				used[id.Name] = true
+				chainedSeen = true
+			}
+			return true
+		})
+		if !chainedSeen {
+			c.Fail("", cs, "no import is bound to %q although the file refers to it through selector chains:\n%s", chainedPath, src)
+		}
 		for n, p := range specs {
 			if !used[n] {
 				c.Fail("", cs, "import %q (%s) is unused", p, n)
@@ -476,6 +506,7 @@ func checkFile(c *core.Ctx, seqs [][]int) {
 		if keptSkipped {
 			want[skippedPath] = true
 		}
+		want[chainedPath] = true
 		if len(specs) != len(want) {
 			c.Fail("", cs, "import block has %d entries, %d distinct packages were referenced: %v", len(specs), len(want), specs)
 		}
@@ -583,7 +614,7 @@ func init() {
 	core.RegisterWorker("c03sess", sessWorker)
 	core.Register(&core.Prop{
 		ID: "C03", Level: "model_checking", Run: run, Replay: replay,
-		Rule: "level 1: every import path of <=3 segments over the segment alphabet (keywords, digit-initial, vN, apis/domain, punctuation, underscore); level 2: breadth-first search over sequences of reference operations (Ref, string ID, PkgExpose, generic instantiation with a nested path, type literal via go/types, a value literal holding same-named types of two same-named packages, own package) on 19 colliding paths (incl. pairs whose common candidate is a keyword or starts with a digit) through the real rawNamer+SnippetWriter, states deduplicated by the tracker's path->name map, the bijection/validity/none-missing/none-unused/stable-name/rendered-text invariants checked after every operation; level 2b: every history of 2 and 3 tracker sessions (8-session alphabet of colliding references) inside one fresh child process, same invariants in every session; level 3: every sequence of <=N paths rendered through the real pipeline (next to a type that refers to one more package and then returns ErrSkip) and the written file parsed (import specs == qualifiers used, each resolving to the rendered path). Non-trivial = multi-segment paths / sequences >=2; states = distinct tracker maps",
+		Rule: "level 1: every import path of <=3 segments over the segment alphabet (keywords, digit-initial, vN, apis/domain, punctuation, underscore); level 2: breadth-first search over sequences of reference operations (Ref, string ID, PkgExpose, generic instantiation with a nested path, type literal via go/types, a value literal holding same-named types of two same-named packages, own package) on 19 colliding paths (incl. pairs whose common candidate is a keyword or starts with a digit) through the real rawNamer+SnippetWriter, states deduplicated by the tracker's path->name map, the bijection/validity/none-missing/none-unused/stable-name/rendered-text invariants checked after every operation; level 2b: every history of 2 and 3 tracker sessions (8-session alphabet of colliding references) inside one fresh child process, same invariants in every session; level 3: every sequence of <=N paths rendered through the real pipeline (next to references to one more package only at the root of longer selector chains, and next to a type that refers to yet another package and then returns ErrSkip) and the written file parsed (import specs == qualifiers used, each resolving to the rendered path). Non-trivial = multi-segment paths / sequences >=2; states = distinct tracker maps",
 		Assumptions: []string{
 			"'/vendor/' paths are outside the alphabet",
 			"two tracker states with equal path->name maps have equal futures",
